@@ -74,6 +74,12 @@ CLAIMED = {
         text="MCStdAtmosphere walks altitudes 0..120 km in 50 m (quick) / 1 m (thorough) steps and each layer boundary +- 60 ulps: round trips within the property's own tolerances, positivity, near-monotonicity (3e-7), end points 0 <-> inf, continuity of the table. Both copies are called on ascending series, boundary neighbourhoods, pressure grids and tabulated base pressures +- 30 ulps, as arrays, 0-d arrays and scalars; per point TLC compares with the spec (1e-12), the copies bit for bit, the code's own round trips and, statefully along a series, the 3e-7 step bound.",
         note="Assumes: the layer table is implementation data (nuspacesim.constants) exported to TLC; its soundness, not its numerical values, is checked.",
         design="4/C19"),
+    "C13": dict(
+        category="model_checking",
+        technique="TLA+ spec GeomTarget.tla model-checked on a lattice (triangle identities, keep rule, Dark monotone); RegionGeomToO.throw/__call__ and ToOEvent.sun_moon_cut events validated by TraceGeomTarget.tla with celestial positions supplied by the harness from astropy",
+        text="MCGeomTarget checks over 4 detector altitudes x 3 limb angles x source altitudes -90..+10 deg in 0.25 deg steps that every kept direction closes the Earth-centre/detector/spot triangle (spot on the surface, emergence angle = angle above the local horizontal), that the keep rule is the conjunction of its masks, and that Dark is monotone in each threshold. Random configurations (source, start date 2016-2023, duration, N, detector lat/lon/altitude 5..36000 km, limb angle, thresholds) are thrown through throw and __call__; per instant TLC checks the time grid, the keep rule against the harness-computed source altitude, the triangle clauses on the reported beta/theta/path, return-array lengths, and the dark-sky boolean against harness-computed Sun/Moon altitudes and phase angle.",
+        note="Assumes: astropy (coordinates, ephemerides, UTC) is the environment; booleans within 1e-9 rad of a threshold are inconclusive. 'Optical only / only removes' is decided by C03.",
+        design="4/C13"),
 }
 
 NOT_BUILT_REASON = "not claimed yet: its specification module and binding are not finished in this tree (see DESIGN.md section 9 build order); no other technique is substituted"
